@@ -295,7 +295,9 @@ func (rn *runner) run(kind int, counter uint64, ops []hx.Group) []byte {
 				if viaLen && r.n != l {
 					rn.out.Oracle(caseNo, "Encode wrote %d bytes but Len() was %d", r.n, l)
 				}
-				if ref, ok := refWire(m); ok && !bytes.Equal(ref, r.bytes) {
+				// (a message decoded from a non-minimal remaining-length encoding legitimately keeps it:
+				//  the fixed header is compared in canonical form, the body byte for byte)
+				if ref, ok := refWire(m); ok && !bytes.Equal(ref, canonHeader(r.bytes)) {
 					rn.out.Oracle(caseNo, "Encode bytes %x differ from the reference wire encoding %x of the message's fields", r.bytes, ref)
 				}
 				// oracle: decoding the bytes yields equal fields
@@ -761,7 +763,15 @@ func mutate(r *hx.Rng, p []byte) []byte {
 	if len(q) == 0 {
 		return q
 	}
-	switch r.Intn(8) {
+	switch r.Intn(9) {
+	case 8: // same remaining length, non-minimal encoding
+		if len(q) > 1 && q[1] < 0x80 {
+			l := q[1]
+			q = append(q[:1:1], append([]byte{l | 0x80, 0x00}, q[2:]...)...)
+			if r.Chance(30) {
+				q = append(q[:2:2], append([]byte{0x80}, q[2:]...)...)
+			}
+		}
 	case 0: // truncate
 		return q[:r.Intn(len(q))]
 	case 1: // bit flip
@@ -808,6 +818,17 @@ func main() {
 	seed := hx.EnvSeed()
 	rn := &runner{out: hx.NewOut(outPrefix), stats: map[string]int{}}
 	r := hx.NewRng(seed)
+	if len(os.Args) > 3 && os.Args[2] == "-cases" {
+		// replay mode: run the given case lines only
+		for _, c := range hx.ReadCases(os.Args[3]) {
+			if len(c) > 0 && len(c[0]) == 2 {
+				rn.run(int(c[0][0]), uint64(c[0][1]), c[1:])
+			}
+		}
+		rn.out.Close()
+		writeStats(outPrefix, rn.stats, rn.out.N)
+		return
+	}
 
 	// corpus first: regression witnesses of the repaired defects and earlier failures
 	for _, c := range corpus() {
